@@ -89,6 +89,7 @@ func vhThird(x, total uint64) bool {
 	return verifrt.Ge128(h3, l3, 0, total)
 }
 
+// vhTopChoices: number of targets that carry votes: nil, "A" (quick); nil, "A", "B" (thorough).
 func vhTopChoices() int {
 	if verifrt.Thorough() {
 		return 3
@@ -119,7 +120,7 @@ func vhGenNums(prev *vhNums, mode int) *vhNums {
 	if mode == vhGrowAll || mode == vhGrowPV {
 		n.pvTot = verifrt.U64("pvTot")
 		verifrt.Assume(n.pvTot <= n.avail)
-		for i := 0; i < 3; i++ {
+		for i := 0; i < vhTopChoices(); i++ {
 			n.pv[i] = verifrt.U64("pv")
 			verifrt.Assume(n.pv[i] <= n.pvTot)
 			if prev != nil {
@@ -143,7 +144,7 @@ func vhGenNums(prev *vhNums, mode int) *vhNums {
 	if mode == vhGrowAll || mode == vhGrowPC {
 		n.pcTot = verifrt.U64("pcTot")
 		verifrt.Assume(n.pcTot <= n.avail)
-		for i := 0; i < 3; i++ {
+		for i := 0; i < vhTopChoices(); i++ {
 			n.pc[i] = verifrt.U64("pc")
 			verifrt.Assume(n.pc[i] <= n.pcTot)
 			if prev != nil {
@@ -452,6 +453,7 @@ type vhSM struct {
 	symEntrances   int  // how many more entrance responses carry arbitrary numbers (later ones: no votes yet)
 	entrancePHs    int  // max proposed headers in an entrance response
 	ownPHInRestart bool
+	viewsLeft        int  // how many more view updates with new numbers may be delivered (<0: no limit)
 	laterEntrancePHs bool // entrance responses after the first of a life may carry headers too
 
 	// ghost
@@ -500,6 +502,7 @@ func vhNewSM(participating bool) *vhSM {
 	verifrt.Assume(e.avail >= 1)
 	e.entrancePHs = 1
 	e.symEntrances = 1
+	e.viewsLeft = -1
 	e.evTimerKind = -1
 	// the engine stores the genesis pseudo-finalization at initial height - 1
 	g := e.genesis()
@@ -772,7 +775,9 @@ func (e *vhSM) applicable(kinds []int) []int {
 	for _, k := range kinds {
 		ok := false
 		switch k {
-		case evView, evViewPV, evViewPC, evJumpAhead, evStaleView:
+		case evView, evViewPV, evViewPC:
+			ok = live && rd != nil && rd.view != nil && e.viewsLeft != 0
+		case evJumpAhead, evStaleView:
 			ok = live && rd != nil && rd.view != nil
 		case evHeader:
 			ok = live && rd != nil && rd.view != nil && rd.view.nPH < 2
@@ -861,6 +866,9 @@ func (e *vhSM) deliver(k int) bool {
 		case evHeader:
 			mode = vhGrowNone
 		}
+		if k != evHeader && e.viewsLeft > 0 {
+			e.viewsLeft--
+		}
 		n := vhGenNums(rd.view, mode)
 		if k == evHeader || (k == evView && n.nPH < 2 && verifrt.Choose("new-header", 2) == 1) {
 			n.nPH++
@@ -906,7 +914,7 @@ func (e *vhSM) deliver(k int) bool {
 	case evPrevoteAnswer, evPrecommitAnswer:
 		r := e.pendingReq(k == evPrevoteAnswer)
 		r.answered = true
-		hash := vhTargets[verifrt.Choose("answer-hash", 3)]
+		hash := vhTargets[verifrt.Choose("answer-hash", vhTopChoices())]
 		// the consensus manager sends on the 1-buffered result channel of the request
 		select {
 		case r.result <- tsi.HashSelection{Hash: hash}:
